@@ -399,6 +399,22 @@ var trConfs = []trConf{
 		returns: map[string]string{"return next(ctx, tx, simulate)": ".pass", "return ctx, err": ".rejected err",
 			"return ctx, fmt.Errorf(\"failed to verify message signature authorisation: %w\", err)": ".rejected err",
 			"return ctx, fmt.Errorf(\"no signature from granted address found for message %s\", proto.MessageName(msg))": ".rejected 3"}},
+	{key: "x/valset/keeper.Keeper.JailInactiveValidators", lean: "jailInactiveValidators", ret: "SweepOutcome",
+		prelude: "/-- an unjailed validator as the inactivity sweep reads it -/\nstructure SweepVal where\n  id : Nat\n  active : Bool      -- bonded or unbonding\n  addrErr : Bool     -- operator address does not parse\n  aliveErr : Nat     -- 0 none, 1 not in the keep-alive store, other: a store failure\n  alive : Bool\n  inGrace : Bool\n  jailedErr : Bool\n  jailed : Bool\nderiving DecidableEq, Repr\n\n/-- how the sweep ended: it ran through (`swept`) or returned an error half way (`aborted`); in both cases the validators handed to `Jail`\n    so far, in order -/\ninductive SweepOutcome where\n  | swept (jailedNow : List Nat) | aborted (code : Nat) (jailedNow : List Nat)\nderiving DecidableEq, Repr",
+		params:    []trParam{{"vals", "List SweepVal"}},
+		init:      []string{"let mut err : Nat := 0", "let mut jailedNow : List Nat := []", "let mut collected : List Nat := []"},
+		elemTypes: map[string]string{"k.GetUnjailedValidators(ctx)": "SweepVal"},
+		atoms: map[string]string{"k.GetUnjailedValidators(ctx)": "vals", "err != nil": "err != 0", "err == nil": "err == 0",
+			"errors.Is(err, ErrValidatorNotInKeepAlive)": "err == 1", "k.isValidatorInGracePeriod(ctx, valAddr)": "val.inGrace",
+			"val.GetStatus() == stakingtypes.Bonded || val.GetStatus() == stakingtypes.Unbonding": "val.active"},
+		skip: []string{"var g whoops.Group"},
+		stmts: map[string][]string{
+			"valAddr, err := keeperutil.ValAddressFromBech32(k.AddressCodec, val.GetOperator())": {"err := if val.addrErr then 9 else 0"},
+			"alive, err := k.IsValidatorAlive(ctx, valAddr)":                                      {"err := val.aliveErr", "let alive := val.alive"},
+			"g.Add(err)":                                  {"collected := collected ++ [err]"},
+			"jailed, err := k.IsJailed(ctx, valAddr)":     {"err := if val.jailedErr then 8 else 0", "let jailed := val.jailed"},
+			"g.Add( k.Jail(ctx, valAddr, types.JailReasonPigeonInactive), )": {"jailedNow := jailedNow ++ [val.id]"}},
+		returns: map[string]string{"return err": ".aborted err jailedNow", "return g.Return()": ".swept jailedNow"}},
 	{key: "x/metrix/keeper.calculateUptime", lean: "calculateUptimeGuard", ret: "Bool",
 		params: []trParam{{"window", "Int"}, {"missed", "Int"}},
 		// only the guard is arithmetic; the division goes through big.Float (modelled in C14's score arithmetic)
@@ -1173,11 +1189,15 @@ func (c *trCtx) block(stmts []ast.Stmt, ind string, out *[]string) {
 			emit(fmt.Sprintf("for %s in %s do", v, c.expr(s.X)))
 			c.block(s.Body.List, ind+"  ", out)
 		case *ast.SwitchStmt:
-			if s.Init != nil || s.Tag == nil {
+			if s.Init != nil {
 				c.fail("switch shape: %s", text)
 				continue
 			}
-			tag := c.expr(s.Tag)
+			// `switch { case c1: …; case c2: …; default: … }`: an if / else-if chain (Go's switch has no fall-through by default)
+			tag := ""
+			if s.Tag != nil {
+				tag = c.expr(s.Tag)
+			}
 			first := true
 			var deflt []ast.Stmt
 			for _, cc := range s.Body.List {
@@ -1188,7 +1208,11 @@ func (c *trCtx) block(stmts []ast.Stmt, ind string, out *[]string) {
 				}
 				var conds []string
 				for _, e := range cl.List {
-					conds = append(conds, "("+tag+" == "+c.expr(e)+")")
+					if s.Tag == nil {
+						conds = append(conds, c.expr(e))
+					} else {
+						conds = append(conds, "("+tag+" == "+c.expr(e)+")")
+					}
 				}
 				kw := "else if "
 				if first {
@@ -1196,6 +1220,9 @@ func (c *trCtx) block(stmts []ast.Stmt, ind string, out *[]string) {
 					first = false
 				}
 				emit(kw + strings.Join(conds, " || ") + " then")
+				if len(cl.Body) == 0 {
+					emit("  pure ()")
+				}
 				c.block(cl.Body, ind+"  ", out)
 			}
 			if deflt != nil {
@@ -1263,7 +1290,15 @@ func genTranslated(w *world) {
 			lines = append(lines, "  "+l)
 			// `let mut x : T := v`
 			if f := strings.Fields(l); len(f) >= 6 && f[0] == "let" && f[1] == "mut" && f[3] == ":" {
-				c.noteType(f[2], f[4])
+				k := 4
+				for k < len(f) && f[k] != ":=" {
+					k++
+				}
+				t := strings.Join(f[4:k], " ")
+				if k > 5 {
+					t = "(" + t + ")"
+				}
+				c.noteType(f[2], t)
 			}
 		}
 		c.block(fi.decl.Body.List, "  ", &lines)
